@@ -309,4 +309,274 @@ theorem tokAt_locAdd_other {U : List String} {cur : List (String × String)} {vm
   simp only [hv, if_false]
   exact h.entry
 
+/-! ### the three folds of `pullLocations` on tokens -/
+
+theorem foldl_track {β} (I : State → Prop) (R : List String → State → Prop) (f : State → β → State)
+    (h : List String → β → List String) (l : List β)
+    (step : ∀ s b L, b ∈ l → I s → R L s → I (f s b) ∧ R (h L b) (f s b)) (s : State) (L : List String)
+    (hI : I s) (hR : R L s) : I (l.foldl f s) ∧ R (l.foldl h L) (l.foldl f s) := by
+  induction l generalizing s L with
+  | nil => exact ⟨hI, hR⟩
+  | cons a r ih =>
+    simp only [List.foldl_cons]
+    obtain ⟨h1, h2⟩ := step s a L List.mem_cons_self hI hR
+    exact ih (fun s b L hb => step s b L (List.mem_cons_of_mem _ hb)) _ _ h1 h2
+
+theorem foldl_if_vm (vm loc : String) (vms : List String) (L : List String) :
+    vms.foldl (fun L vm' => if vm' = vm then pushNew L loc else L) L = if vm ∈ vms then pushNew L loc else L := by
+  induction vms generalizing L with
+  | nil => simp
+  | cons v r ih =>
+    simp only [List.foldl_cons, ih, List.mem_cons]
+    by_cases hv : v = vm
+    · subst hv
+      simp [pushNew_idem]
+    · have : ¬ vm = v := fun h => hv h.symm
+      simp [hv, this]
+
+theorem foldl_if_const (c : Prop) [Decidable c] (locs : List String) (L : List String) :
+    locs.foldl (fun L loc => if c then pushNew L loc else L) L = if c then locs.foldl pushNew L else L := by
+  by_cases hc : c
+  · simp [hc]
+  · simp only [hc, if_false]
+    induction locs with
+    | nil => rfl
+    | cons a r ih => simpa using ih
+
+theorem foldl_if_edges {β} (vm : String) (vmsOf : β → List String) (F : β → List String) (edges : List β) (L : List String) :
+    edges.foldl (fun L e => if vm ∈ vmsOf e then (F e).foldl pushNew L else L) L =
+      ((edges.filter (fun e => (vmsOf e).contains vm)).flatMap F).foldl pushNew L := by
+  induction edges generalizing L with
+  | nil => rfl
+  | cons e r ih =>
+    simp only [List.foldl_cons, ih, List.filter_cons]
+    by_cases hv : vm ∈ vmsOf e
+    · simp [hv]
+    · simp [hv]
+
+/-- the sequence of locations `pull_locations` offers to the entry of `vm`: for every setup edge through `vm`, in
+dict order, the shared pool followed by the pools of the workers that passed the parent -/
+def seqOf (g : Graph) (s : State) (n : Nat) (vm : String) : List String :=
+  ((g.node n).setup.filter (fun e => e.2.contains vm)).flatMap (fun e => locsOf g s e.1)
+
+/-- **`pull_locations` on tokens**: on a separated universe the entry of `vm` after the call is the join of the old
+tokens followed by the new ones of `seqOf`, in order of first occurrence -/
+theorem pullLocations_tok {U : List String} (hU : Sep U) (g : Graph) (s : State) (n : Nat)
+    (hflat : (g.node n).flat = false) (hn : n < s.nodes.length) (hlocs : ∀ p, ∀ t ∈ locsOf g s p, t ∈ U)
+    (vm : String) (L : List String) (h : TokAt U (s.nd n).getLoc vm L) :
+    TokAt U ((pullLocations g s n).nd n).getLoc vm ((seqOf g s n vm).foldl pushNew L) := by
+  rw [pullLocations_eq g s n hflat]
+  let R : List String → State → Prop := fun L s1 => TokAt U (s1.nd n).getLoc vm L
+  have inner : ∀ (loc : String), loc ∈ U → ∀ (vms : List String) s1 L, LocFrame s n s1 → R L s1 →
+      LocFrame s n (vms.foldl (locStep n loc) s1) ∧
+        R (if vm ∈ vms then pushNew L loc else L) (vms.foldl (locStep n loc) s1) := by
+    intro loc hloc vms s1 L hf hr
+    rw [← foldl_if_vm]
+    refine foldl_track (LocFrame s n) R (locStep n loc) _ vms ?_ s1 L hf hr
+    intro s2 vm' L2 _ hf2 hr2
+    refine ⟨locFrame_locStep s n loc s2 vm' hf2, ?_⟩
+    show TokAt U ((locStep n loc s2 vm').nd n).getLoc vm _
+    rw [getLoc_locStep n loc s2 vm' hf2.1]
+    by_cases hv : vm' = vm
+    · subst hv
+      simp only [if_true]
+      exact tokAt_locAdd_same hU hr2 loc hloc
+    · simp only [hv, if_false]
+      exact tokAt_locAdd_other hr2 loc (fun h => hv h.symm)
+  have middle : ∀ (locs : List String), (∀ t ∈ locs, t ∈ U) → ∀ (vms : List String) s1 L, LocFrame s n s1 → R L s1 →
+      LocFrame s n (locs.foldl (fun s loc => vms.foldl (locStep n loc) s) s1) ∧
+        R (if vm ∈ vms then locs.foldl pushNew L else L) (locs.foldl (fun s loc => vms.foldl (locStep n loc) s) s1) := by
+    intro locs hlocs' vms s1 L hf hr
+    rw [← foldl_if_const]
+    refine foldl_track (LocFrame s n) R (fun s loc => vms.foldl (locStep n loc) s) _ locs ?_ s1 L hf hr
+    intro s2 loc L2 hl hf2 hr2
+    exact inner loc (hlocs' loc hl) vms s2 L2 hf2 hr2
+  have outer := foldl_track (LocFrame s n) R
+    (fun s e => (locsOf g s e.1).foldl (fun s loc => e.2.foldl (locStep n loc) s) s)
+    (fun L e => if vm ∈ e.2 then (locsOf g s e.1).foldl pushNew L else L) (g.node n).setup
+    (by
+      intro s2 e L2 _ hf2 hr2
+      have hle : locsOf g s2 e.1 = locsOf g s e.1 := by
+        unfold locsOf; rw [sharedResultWorkerIds_congr g s s2 e.1 hf2.2]
+      show LocFrame s n ((locsOf g s2 e.1).foldl _ s2) ∧ _
+      rw [hle]
+      exact middle (locsOf g s e.1) (hlocs e.1) e.2 s2 L2 hf2 hr2)
+    s L ⟨hn, fun _ => rfl⟩ h
+  have := outer.2
+  rw [foldl_if_edges vm (fun e : Nat × List String => e.2) (fun e => locsOf g s e.1)] at this
+  exact this
+
+/-! ### the universe of a graph: `LocsSeparated` -/
+
+/-- every location string `pull_locations` can list: the shared pool and the pool of every worker -/
+def allLocs (g : Graph) : List String := sharedLoc :: (List.range g.workers.length).map (workerLoc g)
+
+/-- **the separation hypothesis**: every location string is blank-free and no location string (of the shared pool or of
+a worker) is a substring of the location string of another one — in particular distinct workers have distinct
+location strings.  Decidable. -/
+def LocsSeparated (g : Graph) : Prop :=
+  (∀ a ∈ allLocs g, ' ' ∉ a.toList) ∧ (allLocs g).Pairwise (fun a b => strIn a b = false ∧ strIn b a = false)
+
+instance (g : Graph) : Decidable (LocsSeparated g) := by unfold LocsSeparated; exact inferInstance
+
+theorem pairwise_forall {α} {R : α → α → Prop} (hs : ∀ a b, R a b → R b a) {l : List α} (h : l.Pairwise R) :
+    ∀ a ∈ l, ∀ b ∈ l, a ≠ b → R a b := by
+  induction h with
+  | nil => intro a ha; simp at ha
+  | cons hx _ ih =>
+    rename_i x r
+    intro a ha b hb hab
+    rcases List.mem_cons.mp ha with rfl | ha'
+    · rcases List.mem_cons.mp hb with rfl | hb'
+      · exact absurd rfl hab
+      · exact hx b hb'
+    · rcases List.mem_cons.mp hb with rfl | hb'
+      · exact hs _ _ (hx a ha')
+      · exact ih a ha' b hb' hab
+
+theorem workerLoc_ne_empty (g : Graph) (v : Nat) : workerLoc g v ≠ "" := by
+  intro h
+  have := congrArg String.toList h
+  simp [workerLoc, String.toList_append] at this
+
+theorem LocsSeparated.sep {g : Graph} (h : LocsSeparated g) : Sep (allLocs g) where
+  blank := h.1
+  ne := by
+    intro a ha
+    rcases List.mem_cons.mp ha with rfl | ha
+    · decide
+    · obtain ⟨v, _, rfl⟩ := List.mem_map.mp ha
+      exact workerLoc_ne_empty g v
+  sub := by
+    intro a ha b hb hab
+    by_cases hne : a = b
+    · exact hne
+    exfalso
+    have := pairwise_forall (R := fun a b => strIn a b = false ∧ strIn b a = false) (fun _ _ h => ⟨h.2, h.1⟩) h.2 a ha b hb hne
+    rw [this.1] at hab
+    cases hab
+
+/-- distinct workers have distinct location strings -/
+theorem LocsSeparated.inj {g : Graph} (h : LocsSeparated g) (v v' : Nat) (hv : v < g.workers.length)
+    (hv' : v' < g.workers.length) (he : workerLoc g v = workerLoc g v') : v = v' := by
+  by_cases hne : v = v'
+  · exact hne
+  exfalso
+  have h2 := (List.pairwise_cons.mp h.2).2
+  rw [List.pairwise_map] at h2
+  have := pairwise_forall (R := fun a b => strIn (workerLoc g a) (workerLoc g b) = false ∧ strIn (workerLoc g b) (workerLoc g a) = false)
+    (fun _ _ h => ⟨h.2, h.1⟩) h2 v (List.mem_range.mpr hv) v' (List.mem_range.mpr hv') hne
+  rw [he, strIn_self] at this
+  cases this.1
+
+/-- no worker's location string is the shared pool's -/
+theorem LocsSeparated.shared_ne {g : Graph} (h : LocsSeparated g) (v : Nat) (hv : v < g.workers.length) :
+    sharedLoc ≠ workerLoc g v := by
+  intro he
+  have h1 := (List.pairwise_cons.mp h.2).1 (workerLoc g v) (List.mem_map.mpr ⟨v, List.mem_range.mpr hv, rfl⟩)
+  rw [← he, strIn_self] at h1
+  cases h1.1
+
+theorem mem_sharedResultWorkerIds_lt (g : Graph) (s : State) (p v : Nat) (h : v ∈ sharedResultWorkerIds g s p) :
+    v < g.workers.length := by
+  unfold sharedResultWorkerIds at h
+  rw [mem_dedupNat, List.mem_filterMap] at h
+  obtain ⟨r, _, hr⟩ := h
+  split at hr
+  · cases hr
+  · have := List.mem_of_find?_eq_some hr
+    simpa using this
+
+theorem locsOf_sub_allLocs (g : Graph) (s : State) (p : Nat) : ∀ t ∈ locsOf g s p, t ∈ allLocs g := by
+  intro t ht
+  unfold locsOf at ht
+  unfold allLocs
+  rcases List.mem_cons.mp ht with rfl | ht
+  · exact List.mem_cons_self
+  · obtain ⟨v, hv, rfl⟩ := List.mem_map.mp ht
+    exact List.mem_cons_of_mem _ (List.mem_map.mpr ⟨v, List.mem_range.mpr (mem_sharedResultWorkerIds_lt g s p v hv), rfl⟩)
+
+/-! ### the exact list -/
+
+/-- the setup edges of `n` that carry the object `vm` -/
+def edgesThrough (g : Graph) (n : Nat) (vm : String) : List (Nat × List String) :=
+  (g.node n).setup.filter (fun e => e.2.contains vm)
+
+/-- the workers with a passing result of a setup parent through `vm`, each once, in order of first occurrence -/
+def passersThrough (g : Graph) (s : State) (n : Nat) (vm : String) : List Nat :=
+  dedupFirst ((edgesThrough g n vm).flatMap (fun e => sharedResultWorkerIds g s e.1))
+
+theorem nodup_passersThrough (g : Graph) (s : State) (n : Nat) (vm : String) : (passersThrough g s n vm).Nodup :=
+  nodup_dedupFirst _
+
+theorem mem_passersThrough (g : Graph) (s : State) (n : Nat) (vm : String) (v : Nat) :
+    v ∈ passersThrough g s n vm ↔
+      ∃ p vms, (p, vms) ∈ (g.node n).setup ∧ vm ∈ vms ∧ v ∈ sharedResultWorkerIds g s p := by
+  unfold passersThrough edgesThrough
+  rw [mem_dedupFirst, List.mem_flatMap]
+  constructor
+  · rintro ⟨⟨p, vms⟩, he, hv⟩
+    rw [List.mem_filter] at he
+    exact ⟨p, vms, he.1, by simpa using he.2, hv⟩
+  · rintro ⟨p, vms, he, hvm, hv⟩
+    exact ⟨(p, vms), List.mem_filter.mpr ⟨he, by simpa using hvm⟩, hv⟩
+
+/-- the exact token list: the shared pool, then the pools of the passers in order of first occurrence — nothing when no
+setup edge carries `vm` -/
+def expectedLocs (g : Graph) (s : State) (n : Nat) (vm : String) : List String :=
+  if edgesThrough g n vm = [] then [] else sharedLoc :: (passersThrough g s n vm).map (workerLoc g)
+
+theorem dedupFirst_seqOf {g : Graph} (hsep : LocsSeparated g) (s : State) (n : Nat) (vm : String) :
+    dedupFirst (seqOf g s n vm) = expectedLocs g s n vm := by
+  unfold expectedLocs passersThrough seqOf
+  show dedupFirst ((edgesThrough g n vm).flatMap _) = _
+  generalize hE : edgesThrough g n vm = E
+  cases E with
+  | nil => rfl
+  | cons e r =>
+    simp only [reduceCtorEq, if_false]
+    let B : Nat × List String → List String := fun e => (sharedResultWorkerIds g s e.1).map (workerLoc g)
+    have hB : ∀ e, sharedLoc ∉ B e := by
+      intro e hm
+      obtain ⟨v, hv, he⟩ := List.mem_map.mp hm
+      exact hsep.shared_ne v (mem_sharedResultWorkerIds_lt g s e.1 v hv) he.symm
+    have h1 : dedupFirst ((e :: r).flatMap (fun e => locsOf g s e.1)) =
+        ((e :: r).flatMap (fun e => sharedLoc :: B e)).foldl pushNew [sharedLoc] := by
+      unfold dedupFirst
+      show ((e :: r).flatMap (fun e => sharedLoc :: B e)).foldl pushNew [] = _
+      simp only [List.flatMap_cons, List.cons_append, List.foldl_cons]
+      rfl
+    rw [h1, foldl_pushNew_blocks sharedLoc B hB (e :: r) []]
+    have hnot : sharedLoc ∉ (e :: r).flatMap B := by
+      intro hm
+      obtain ⟨e', _, he'⟩ := List.mem_flatMap.mp hm
+      exact hB e' he'
+    rw [foldl_pushNew_cons sharedLoc [] _ hnot]
+    congr 1
+    have h2 : (e :: r).flatMap B = ((e :: r).flatMap (fun e => sharedResultWorkerIds g s e.1)).map (workerLoc g) := by
+      rw [List.map_flatMap]
+    rw [h2]
+    unfold dedupFirst
+    have := foldl_pushNew_map (workerLoc g) (fun v => v < g.workers.length) (fun x y hx hy h => hsep.inj x y hx hy h)
+      ((e :: r).flatMap (fun e => sharedResultWorkerIds g s e.1)) []
+      (by
+        intro v hv
+        obtain ⟨e', _, he'⟩ := List.mem_flatMap.mp hv
+        exact mem_sharedResultWorkerIds_lt g s e'.1 v he')
+      (by intro x hx; simp at hx)
+    simpa using this
+
+theorem expectedLocs_nodup {g : Graph} (hsep : LocsSeparated g) (s : State) (n : Nat) (vm : String) :
+    (expectedLocs g s n vm).Nodup := by
+  rw [← dedupFirst_seqOf hsep]; exact nodup_dedupFirst _
+
+/-- **`pull_locations`, exact form**: on separated location strings and from an empty `get_location`, the entry of `vm`
+is the join of `expectedLocs` -/
+theorem pullLocations_exact {g : Graph} (hsep : LocsSeparated g) (s : State) (n : Nat)
+    (hflat : (g.node n).flat = false) (hn : n < s.nodes.length) (hempty : (s.nd n).getLoc = []) (vm : String) :
+    locOf ((pullLocations g s n).nd n).getLoc vm = enc (expectedLocs g s n vm) := by
+  have h := pullLocations_tok hsep.sep g s n hflat hn (locsOf_sub_allLocs g s) vm [] (by rw [hempty]; exact tokAt_nil _ _)
+  rw [← dedupFirst_seqOf hsep]
+  exact h.entry
+
 end I2N.Trav
